@@ -16,11 +16,9 @@
 package vsync
 
 import (
-	"bytes"
 	"hash/fnv"
 	"math/rand/v2"
 	"runtime"
-	"strconv"
 	"sync"
 	"time"
 )
@@ -106,26 +104,23 @@ var reg struct {
 	jitterOn   bool
 }
 
-func goid() int64 {
-	var buf [64]byte
-	n := runtime.Stack(buf[:], false)
-	// "goroutine 123 ["
-	b := buf[:n]
-	b = b[len("goroutine "):]
-	i := bytes.IndexByte(b, ' ')
-	id, _ := strconv.ParseInt(string(b[:i]), 10, 64)
-	return id
-}
-
 // BeginScenario resets the registry. jitterOn=false gives plain TryLock loops
 // (used for the sequential replays of the specification).
 func BeginScenario(seed uint64, jitterOn bool) {
 	reg.mu.Lock()
-	reg.gs = map[int64]*gstate{}
+	if reg.gs == nil {
+		reg.gs = map[int64]*gstate{}
+		reg.mutexIDs = map[any]int16{}
+	}
+	for k := range reg.gs { // (the copy is compiled with the repository's go 1.20 language level: no clear())
+		delete(reg.gs, k)
+	}
+	for k := range reg.mutexIDs {
+		delete(reg.mutexIDs, k)
+	}
 	reg.progress = 0
 	reg.deadlocked = false
 	reg.log = reg.log[:0]
-	reg.mutexIDs = map[any]int16{}
 	reg.rng = seed | 1
 	reg.failLimit = 50
 	reg.jitterOn = jitterOn
@@ -224,15 +219,33 @@ func trackedDelay() {
 	if !on {
 		return
 	}
+	// Mostly yields (a yield costs ~0.1-0.2 µs when the P has nothing else to run, a
+	// critical section of the library a fraction of that), rarely a real sleep: the
+	// relative delay between two threads is what opens a split section.
 	switch {
-	case r&0xff < 100:
-	case r&0xff < 215:
-		n := int((r>>8)&15) + 1
+	case r&0xff < 80: // ~31 %: nothing
+	case r&0xff < 205: // ~49 %: busy wait, up to a few µs (no scheduler involvement)
+		spin(int((r>>8)&4095) + 1)
+	case r&0xff < 245: // ~16 %: yield 1..4 times
+		n := int((r>>8)&3) + 1
 		for i := 0; i < n; i++ {
 			runtime.Gosched()
 		}
-	default:
-		time.Sleep(time.Duration((r>>8)&15+1) * time.Microsecond)
+	default: // ~4 %: a real sleep
+		time.Sleep(time.Duration((r>>8)&7+1) * time.Microsecond)
+	}
+}
+
+var spinSink uint64
+
+//go:noinline
+func spin(n int) {
+	var x uint64
+	for i := 0; i < n; i++ {
+		x += uint64(i) ^ (x >> 3)
+	}
+	if x == 1<<63 {
+		spinSink = x
 	}
 }
 
@@ -325,9 +338,12 @@ func acquire(m any, kind int8, try func() bool) {
 			runtime.Goexit()
 		}
 		spins++
-		if spins < 8 {
+		switch {
+		case spins < 40:
+			spin(200)
+		case spins < 200:
 			runtime.Gosched()
-		} else {
+		default:
 			time.Sleep(20 * time.Microsecond)
 		}
 	}
